@@ -119,6 +119,18 @@ pub fn applied_take() -> Vec<([u8; 16], u64)> {
     std::mem::take(&mut *APPLIED.lock().unwrap())
 }
 
+static CATCHUP_BUFFER: std::sync::atomic::AtomicUsize = std::sync::atomic::AtomicUsize::new(10240);
+
+/// capacity of the row / change buffers of a subscription catch-up (production: 10240, larger
+/// than any small test result, so that the reader never stalls in the middle of its read)
+pub fn set_catchup_buffer(n: usize) {
+    CATCHUP_BUFFER.store(n.max(1), Ordering::SeqCst);
+}
+
+pub fn catchup_buffer() -> usize {
+    CATCHUP_BUFFER.load(Ordering::SeqCst)
+}
+
 static SERVED: Mutex<Vec<([u8; 16], [u8; 16], u16, u16)>> = Mutex::new(Vec::new());
 
 /// a sync session was opened towards this node: (server, client, cluster the client declared,
